@@ -5,7 +5,8 @@ import SnaxVerif.Lemmas.PhsEncode
 /-! C20 — a merged processing element, configured as decoded, computes each kernel.
 
 Top-level results: `C20_for_bodies` (kernel bodies -> encode -> merge history of any length -> decode -> exact
-function; no structural hypothesis), `C20_history` (= `C20_statement`, for kernels satisfying `kwf`),
+function; no structural hypothesis, clause `attr_clause`), `C20_history_partial` (`C20_statement` under
+`attr_clause`; `C20_statement_attr_fails` = finding DC20a; `C20_history_attrfree` for attribute-free operations),
 `combine_keeps` (= `combine_keeps_statement`).
 
 `PE.wf` are the structural invariants of the IR (unique symbol names, a default region in every choose op,
@@ -22,7 +23,9 @@ open SnaxVerif.Phs
 refer to choose ops of the kernel) and has as many data ports as the first one. If the history merges into
 `A`, every kernel of the history decodes against `A`, the number of decoded values is `trueSwitches A`, and
 `A` under the decoded switches delivers exactly the values the kernel delivers (any value type, any
-operation semantics, any data inputs). Proved below: `C20_history`. -/
+operation semantics, any data inputs). FALSE of the code as it is when two kernels use one operation class with
+different attributes (`C20_statement_attr_fails`, finding DC20a); proved under `attr_clause`:
+`C20_history_partial`. -/
 def C20_statement : Prop :=
   ∀ (k0 : PE) (ks : List PE) (A : PE), k0.kwf = true → (∀ k, k ∈ ks → k.kwf = true) →
     (∀ k, k ∈ ks → k.argTys.length = k0.argTys.length) → mergeAll k0 ks = .ok A →
@@ -167,21 +170,44 @@ theorem combine_keeps_needs_extends_fails :
   have hd : decode A' K = .error .mappingNotFound := by decide
   rw [hd] at hsw'; cases hsw'
 
+/-- Prop form of the attribute clause: among the operations of all kernels of the history, the class (operation
+name) determines the operation — no two kernels use one operation with different attributes -/
+theorem attr_clause_iff (gs : List PE) : classFun (allOps gs) = true ↔ ClassFun (allOps gs) := classFun_iff _
+
 /-- every graph a merge history reaches satisfies the invariant (and so `wf`, the hypothesis of
-`decode_sound` / `switch_count`), has the data ports of the first kernel, and covers every kernel merged -/
-theorem reachable_inv (k0 : PE) (ks : List PE) (A : PE) (h0 : k0.kwf = true) (hks : ∀ k, k ∈ ks → k.kwf = true)
+`decode_sound` / `switch_count`), has the data ports of the first kernel, every merged kernel is routable —
+and, under `attr_clause`, covered (`attr_clause` cannot be dropped: `C20_statement_attr_fails`) -/
+theorem reachable_inv_partial (k0 : PE) (ks : List PE) (A : PE) (h0 : k0.kwf = true)
+    (hks : ∀ k, k ∈ ks → k.kwf = true) (attr_clause : classFun (allOps (k0 :: ks)) = true)
     (hm : mergeAll k0 ks = .ok A) :
     Inv A ∧ A.wf = true ∧ A.argTys = k0.argTys ∧ ∀ k, k ∈ k0 :: ks → Routable A k ∧ covers A k = true := by
   obtain ⟨hr0, hc0⟩ := routable_self h0
-  obtain ⟨hinv, hargs, hall⟩ := mergeAll_ok ks k0 A [k0] (inv_of_kernel h0)
-    (fun K hK => by simp at hK; subst hK; exact ⟨hr0, hc0⟩) hks hm
-  exact ⟨hinv, hinv.wf, hargs, fun k hk => hall k (by simpa using hk)⟩
+  have hS := (classFun_iff _).mp attr_clause
+  have hin : ∀ k, k ∈ k0 :: ks → ∀ n, n ∈ k.nodes → ∀ o, o ∈ n.ops → o ∈ allOps (k0 :: ks) :=
+    fun k hk n hn o ho => mem_allOps.mpr ⟨k, hk, n, hn, ho⟩
+  obtain ⟨hinv, hcu, hargs, hall⟩ := mergeAll_ok (allOps (k0 :: ks)) hS ks k0 A [k0] (inv_of_kernel h0)
+    (cu_of_wf (kwf_parts h0).1) (opsIn_of_mem (hin k0 (by simp)))
+    (fun K hK => by simp at hK; subst hK; exact ⟨hr0, hc0⟩) hks
+    (fun k hk => hin k (by simp [hk])) hm
+  exact ⟨hinv, hinv.wf hcu, hargs, fun k hk => hall k (by simpa using hk)⟩
 
 /-- **a merge establishes the extension relation** (discharges `extends_clause` of `combine_keeps_partial`) -/
 theorem combine_establishes_extends (A G A' : PE) (hinv : Inv A) (hG : ∀ g, g ∈ G.nodes → g.ops ≠ [])
-    (h : combine A G = .ok A') : Extends A A' ∧ Inv A' ∧ Routable A' G ∧ covers A' G = true := by
-  obtain ⟨hinv', hext, hr, hc⟩ := combine_ok hinv hG h
-  exact ⟨extends_of_ext hext, hinv', hr, hc⟩
+    (h : combine A G = .ok A') : Extends A A' ∧ Inv A' ∧ Routable A' G := by
+  obtain ⟨hinv', hext, hr, _⟩ := combine_ok hinv hG h
+  exact ⟨extends_of_ext hext, hinv', hr⟩
+
+/-- **a merge covers the merged graph** (partial). Clause `attr_clause`: all operations offered by `A` and all
+operations of `G` come from a set `S` in which the class determines the operation. Without it
+`insert_operations` silently drops an operation whose class is present with other attributes (finding DC20a,
+`C20_statement_attr_fails`). -/
+theorem combine_establishes_covers_partial (A G A' : PE) (hinv : Inv A) (hG : ∀ g, g ∈ G.nodes → g.ops ≠ [])
+    (h : combine A G = .ok A') (S : List OpCode) (attr_clause : ClassFun S) (hA : OpsIn S A)
+    (hGS : ∀ g, g ∈ G.nodes → ∀ o, o ∈ g.ops → o ∈ S) : covers A' G = true ∧ OpsIn S A' := by
+  obtain ⟨_, _, _, hf⟩ := combine_ok hinv hG h
+  refine ⟨?_, hf.opsIn S hA hGS⟩
+  simp only [covers, List.all_eq_true]
+  exact fun g hg => hf.cov S attr_clause hA hGS g hg
 
 /-- **combine keeps** (full): merging a further kernel never makes an earlier kernel undecodable. -/
 theorem combine_keeps : combine_keeps_statement := by
@@ -189,15 +215,22 @@ theorem combine_keeps : combine_keeps_statement := by
   obtain ⟨hinv', hext, _, _⟩ := combine_ok hinv hG hcomb
   obtain ⟨hcon, _⟩ := decode_ok hdec
   refine combine_keeps_partial A A' K sw hdec (extends_of_ext hext) ?_
-  apply localChoices_ok hinv'.wf (covers_mono hext hcov) hcon
+  apply localChoices_ok hinv'.uniq (covers_mono hext hcov) hcon
   intro u hu j hj
   obtain ⟨s, hs, hsu⟩ := List.getElem_of_mem hu
   exact hinv'.swt s j (by rw [List.getElem?_eq_getElem hs, hsu, hj])
 
-/-- **C20 for merge histories of any length** (full): the statement above holds. -/
-theorem C20_history : C20_statement := by
-  intro k0 ks A h0 hks hargs hm k hk
-  obtain ⟨hinv, hwf, hA, hall⟩ := reachable_inv k0 ks A h0 hks hm
+/-- **C20 for merge histories of any length** (partial). Clause `attr_clause`: among the operations of all
+kernels of the history the class (operation name) determines the operation. Everything else of `C20_statement`
+is proved; the clause cannot be dropped (`C20_statement_attr_fails`, finding DC20a). -/
+theorem C20_history_partial (k0 : PE) (ks : List PE) (A : PE) (h0 : k0.kwf = true)
+    (hks : ∀ k, k ∈ ks → k.kwf = true) (hargs : ∀ k, k ∈ ks → k.argTys.length = k0.argTys.length)
+    (attr_clause : classFun (allOps (k0 :: ks)) = true) (hm : mergeAll k0 ks = .ok A) :
+    ∀ k, k ∈ k0 :: ks → ∃ sw, decode A k = .ok sw ∧ sw.length = A.trueSwitches ∧
+      ∀ (V : Type) (sem : OpCode → List V → V) (inp : List V) (v : V),
+        Computes sem k (fun _ => 0) inp k.yld v ↔ Computes sem A (A.assign sw) inp A.yld v := by
+  intro k hk
+  obtain ⟨hinv, hwf, hA, hall⟩ := reachable_inv_partial k0 ks A h0 hks attr_clause hm
   obtain ⟨hr, hc⟩ := hall k hk
   have hkw : k.kwf = true := by
     rcases List.mem_cons.mp hk with rfl | hk
@@ -214,6 +247,53 @@ theorem C20_history : C20_statement := by
   refine ⟨sw, hsw, switch_count A k sw hwf hsw, fun V sem inp v => ⟨?_, ?_⟩⟩
   · exact decode_sound A k sw hwf huK hc hsw sem inp v
   · exact decode_reflects A k sw hwf huK hcon hc hsw sem inp v
+
+/-- **attribute-free histories** (full for them; this is the theorem of the previous rounds, whose model had
+no attributes): if no operation of any kernel carries an attribute, `attr_clause` holds. -/
+theorem C20_history_attrfree (k0 : PE) (ks : List PE) (A : PE) (h0 : k0.kwf = true)
+    (hks : ∀ k, k ∈ ks → k.kwf = true) (hargs : ∀ k, k ∈ ks → k.argTys.length = k0.argTys.length)
+    (hfree : ∀ o, o ∈ allOps (k0 :: ks) → o.attr = "") (hm : mergeAll k0 ks = .ok A) :
+    ∀ k, k ∈ k0 :: ks → ∃ sw, decode A k = .ok sw ∧ sw.length = A.trueSwitches ∧
+      ∀ (V : Type) (sem : OpCode → List V → V) (inp : List V) (v : V),
+        Computes sem k (fun _ => 0) inp k.yld v ↔ Computes sem A (A.assign sw) inp A.yld v := by
+  apply C20_history_partial k0 ks A h0 hks hargs _ hm
+  rw [classFun_iff]
+  intro o o' ho ho' hc
+  cases o; cases o'
+  simp only at hc
+  have h1 := hfree _ ho
+  have h2 := hfree _ ho'
+  simp only at h1 h2
+  simp [hc, h1, h2]
+
+section AttrWitness
+def i1 : Ty := ⟨"IntegerType", "i1"⟩
+def i32' : Ty := ⟨"IntegerType", "i32"⟩
+/-- kernel `a < b` -/
+def exLt : PE := ⟨[i32', i32'], [⟨"c0", [⟨"arith.cmpi", "slt"⟩], [.arg 0, .arg 1], 0, i1⟩], .node 0, [.choose 0]⟩
+/-- kernel `a > b`: same operation class, other predicate -/
+def exGt : PE := ⟨[i32', i32'], [⟨"c0", [⟨"arith.cmpi", "sgt"⟩], [.arg 0, .arg 1], 0, i1⟩], .node 0, [.choose 0]⟩
+def semCmp (op : OpCode) (vs : List Int) : Int :=
+  if op.attr = "slt" then (if vs.getD 0 0 < vs.getD 1 0 then 1 else 0)
+  else (if vs.getD 0 0 > vs.getD 1 0 then 1 else 0)
+
+/-- **finding DC20a in the model**: `C20_statement` is false of the code as it is. Merging `a > b` into the
+element for `a < b` changes nothing (`insert_operations` compares operation names only), decoding `a > b`
+succeeds with no switch value (`decode` compares classes only), and the element computes `a < b`. The
+attribute clause of `C20_history_partial` cannot be dropped. -/
+theorem C20_statement_attr_fails : ¬ C20_statement := by
+  intro h
+  obtain ⟨sw, hsw, _, hiff⟩ := h exLt [exGt] exLt (by decide) (by decide) (by decide) (by decide) exGt (by simp)
+  have hd : decode exLt exGt = .ok [] := by decide
+  rw [hd] at hsw; injection hsw with hsw; subst hsw
+  have hk : Computes semCmp exGt (fun _ => 0) [1, 2] exGt.yld 0 := eval_sound exGt _ _ _ 0 (by decide)
+  have ha : Computes semCmp exLt (exLt.assign []) [1, 2] exLt.yld 1 := eval_sound exLt _ _ _ 1 (by decide)
+  have := computes_functional exLt _ semCmp [1, 2] _ _ _ ((hiff Int semCmp [1, 2] 0).mp hk) ha
+  exact absurd this (by decide)
+
+/-- the clause is what fails for the witness -/
+example : classFun (allOps [exLt, exGt]) = false := by decide
+end AttrWitness
 
 /-- full statement: `convert_generic_body_to_phs` returns a kernel in the sense of `C20_history` -/
 def encode_kwf_statement : Prop := ∀ (b : KBody) (K : PE), encode b = .ok K → K.kwf = true
@@ -238,29 +318,31 @@ theorem encode_exact (b : KBody) (K : PE) (h : encode b = .ok K)
     have := computes_det sem K _ _ _ _ (encode_sound_aux sem h inp hlen v' hv') _ hc
     rw [hv', this]
 
-/-- **C20 down to the kernel bodies** (full): in a merge history as in `C20_history`, a kernel that is the
-encoding of body `b` decodes, and the merged element under the decoded switches computes exactly the function
-of `b`. -/
-theorem C20_history_bodies (k0 : PE) (ks : List PE) (A : PE) (h0 : k0.kwf = true)
+/-- **C20 down to the kernel bodies** (partial, clause `attr_clause`): in a merge history as in
+`C20_history_partial`, a kernel that is the encoding of body `b` decodes, and the merged element under the
+decoded switches computes exactly the function of `b`. -/
+theorem C20_history_bodies_partial (k0 : PE) (ks : List PE) (A : PE) (h0 : k0.kwf = true)
     (hks : ∀ k, k ∈ ks → k.kwf = true) (hargs : ∀ k, k ∈ ks → k.argTys.length = k0.argTys.length)
+    (attr_clause : classFun (allOps (k0 :: ks)) = true)
     (hm : mergeAll k0 ks = .ok A) (b : KBody) (k : PE) (hk : k ∈ k0 :: ks) (hb : encode b = .ok k) :
     ∃ sw, decode A k = .ok sw ∧ sw.length = A.trueSwitches ∧
       ∀ (V : Type) (sem : OpCode → List V → V) (inp : List V), inp.length = b.argTys.length → ∀ v : V,
         b.eval sem inp = some v ↔ Computes sem A (A.assign sw) (b.usedInputs inp) A.yld v := by
-  obtain ⟨sw, h1, h2, h3⟩ := C20_history k0 ks A h0 hks hargs hm k hk
+  obtain ⟨sw, h1, h2, h3⟩ := C20_history_partial k0 ks A h0 hks hargs attr_clause hm k hk
   refine ⟨sw, h1, h2, fun V sem inp hlen v => ?_⟩
   rw [encode_exact b k hb sem inp hlen v]
   exact h3 V sem (b.usedInputs inp) v
 
-/-- **C20 for kernel bodies, no structural hypothesis left** (full): encode any list of `linalg.generic`
+/-- **C20 for kernel bodies, no structural hypothesis left** (partial, clause `attr_clause`): encode any list of `linalg.generic`
 bodies (`convert_generic_body_to_phs`), merge the kernels in the given order (`append_to_abstract_graph`); if
 nothing raises and the kernels have equally many data ports, then every kernel decodes against the merged
 element, the number of decoded values is `trueSwitches`, and the element under the decoded switches computes
 exactly the function of the corresponding body. Any number of kernels, operations, muxes; any value type,
 operation semantics and input. -/
-theorem C20_for_bodies (b0 : KBody) (bs : List KBody) (k0 : PE) (ks : List PE) (A : PE)
+theorem C20_for_bodies_partial (b0 : KBody) (bs : List KBody) (k0 : PE) (ks : List PE) (A : PE)
     (h0 : encode b0 = .ok k0) (hs : mapExcept encode bs = .ok ks)
-    (hargs : ∀ k, k ∈ ks → k.argTys.length = k0.argTys.length) (hm : mergeAll k0 ks = .ok A)
+    (hargs : ∀ k, k ∈ ks → k.argTys.length = k0.argTys.length)
+    (attr_clause : classFun (allOps (k0 :: ks)) = true) (hm : mergeAll k0 ks = .ok A)
     (i : Nat) (b : KBody) (hb : (b0 :: bs)[i]? = some b) :
     ∃ k sw, (k0 :: ks)[i]? = some k ∧ encode b = .ok k ∧ decode A k = .ok sw ∧ sw.length = A.trueSwitches ∧
       ∀ (V : Type) (sem : OpCode → List V → V) (inp : List V), inp.length = b.argTys.length → ∀ v : V,
@@ -282,7 +364,7 @@ theorem C20_for_bodies (b0 : KBody) (bs : List KBody) (k0 : PE) (ks : List PE) (
       obtain ⟨k, hk, he⟩ := hp i b (by simpa using hb)
       exact ⟨k, by simpa using hk, he⟩
   obtain ⟨k, hki, he⟩ := hfind
-  obtain ⟨sw, h1, h2, h3⟩ := C20_history_bodies k0 ks A (encode_kwf_full h0) hkw hargs hm b k
+  obtain ⟨sw, h1, h2, h3⟩ := C20_history_bodies_partial k0 ks A (encode_kwf_full h0) hkw hargs attr_clause hm b k
     (List.mem_of_getElem? hki) he
   exact ⟨k, sw, hki, he, h1, h2, h3⟩
 
@@ -317,7 +399,7 @@ example : combine exK1 exK2 = .ok exA := by decide
 example : exK1.kwf = true ∧ exK2.kwf = true ∧ exK2.argTys.length = exK1.argTys.length ∧
     mergeAll exK1 [exK2] = .ok exA := by decide
 example : ∃ sw, decode exA exK2 = .ok sw ∧ sw.length = exA.trueSwitches :=
-  let ⟨sw, h1, h2, _⟩ := C20_history exK1 [exK2] exA (by decide) (by decide) (by decide) (by decide) exK2 (by simp)
+  let ⟨sw, h1, h2, _⟩ := C20_history_partial exK1 [exK2] exA (by decide) (by decide) (by decide) (by decide) (by decide) exK2 (by simp)
   ⟨sw, h1, h2⟩
 /-- a body whose encoding is kernel 2: `%0 = muli %in0, %in1; yield %0` with an unused third block argument -/
 def exB2 : KBody := ⟨[i32, i32, i32], [⟨"arith.muli", [.arg 0, .arg 1], i32⟩], .res 0⟩
